@@ -126,19 +126,22 @@ Lemma from_mid : forall ls post p, starts_slash p = true -> wfd post ->
   exists sched,
     eff ls sched (Mid p post) /\ (length sched <= 6 + 8 * length post)%nat /\
     match find (supported ls) (p :: post) with
-    | Some q => exists rest, mrun ls sched (Mid p post) = Fok q rest
+    | Some q => exists pre rest, mrun ls sched (Mid p post) = Fok q rest /\
+                  p :: post = pre ++ q :: rest /\ Forall (fun x => supported ls x = false) pre
     | None => mrun ls sched (Mid p post) = Ffail
     end.
 Proof.
   intros ls post. induction post as [|p' post IH]; intros p Hs Hw.
   - cbn [find]. destruct (supported ls p) eqn:Hu.
     + destruct (seg_mid_ok ls p [] Hs Hu) as [H1 H2].
-      exists seg5. split; [exact H2|]. split; [unfold seg5; cbn [length app]; lia|]. exists []. exact H1.
+      exists seg5. split; [exact H2|]. split; [unfold seg5; cbn [length app]; lia|].
+      exists [], []. split; [exact H1|]. split; [reflexivity | constructor].
     + destruct (seg_mid_fail ls p Hu) as [H1 H2].
       exists (seg5 ++ [false]). split; [exact H2|]. split; [unfold seg5; cbn [length app]; lia|]. exact H1.
   - cbn [find]. destruct (supported ls p) eqn:Hu.
     + destruct (seg_mid_ok ls p (p' :: post) Hs Hu) as [H1 H2].
-      exists seg5. split; [exact H2|]. split; [unfold seg5; cbn [length app]; lia|]. exists (p' :: post). exact H1.
+      exists seg5. split; [exact H2|]. split; [unfold seg5; cbn [length app]; lia|].
+      exists [], (p' :: post). split; [exact H1|]. split; [reflexivity | constructor].
     + pose proof (Forall_inv Hw) as Hs'. pose proof (Forall_inv_tail Hw) as Hw'. cbv beta in Hs'.
       destruct (seg_mid_next ls p p' post Hu) as [H1 H2].
       destruct (seg_rs_mid ls p' post Hs') as [H3 H4].
@@ -148,8 +151,19 @@ Proof.
       * apply (eff_app ls seg5); [exact H2|]. rewrite H1. apply (eff_app ls [true; true; true] sched); [exact H4|]. rewrite H3. exact He.
       * split.
         -- rewrite !app_length. unfold seg5. cbn [length]. cbn [length] in Hl. lia.
-        -- rewrite !mrun_app. rewrite H1, H3. cbn [find] in Hr. exact Hr.
+        -- rewrite !mrun_app. rewrite H1, H3. cbn [find] in Hr.
+           destruct (if supported ls p' then Some p' else find (supported ls) post) as [q|]; [|exact Hr].
+           destruct Hr as (pre & rest & E1 & E2 & E3).
+           exists (p :: pre), rest. split; [exact E1|]. split.
+           ++ cbn [app]. f_equal. exact E2.
+           ++ constructor; assumption.
 Qed.
+
+(* where the dialer's remaining list stands in the final state: right after the first supported
+   name (this pins down the INDEX the dialer reports, also with duplicate names) *)
+Definition rest_ok (ds ls : list name) (F : msys) : Prop :=
+  forall q, first_common ds ls = Some q ->
+  exists pre, ds = pre ++ q :: md_rest (sd F) /\ Forall (fun x => supported ls x = false) pre.
 
 Lemma final_ok_Fok : forall ds ls q rest, first_common ds ls = Some q -> final_ok ds ls (Fok q rest).
 Proof.
@@ -161,14 +175,14 @@ Proof.
   intros ds ls H. unfold final_ok, Ffail. cbn. rewrite H. repeat split; try reflexivity; discriminate.
 Qed.
 
-Lemma ref_run : forall ds ls, wfd ds ->
+Lemma ref_run2 : forall ds ls, wfd ds ->
   exists sched, eff ls sched (minit ds) /\ (length sched <= fair_bound ds)%nat /\
-                final_ok ds ls (mrun ls sched (minit ds)).
+                final_ok ds ls (mrun ls sched (minit ds)) /\ rest_ok ds ls (mrun ls sched (minit ds)).
 Proof.
   intros [|p post] ls Hw.
   - destruct (seg_init_nil ls) as [H1 H2]. exists [true; false].
     split; [exact H2|]. split; [unfold fair_bound; cbn; lia|].
-    rewrite H1. apply final_ok_Ffail. reflexivity.
+    rewrite H1. split; [apply final_ok_Ffail; reflexivity|]. intros q Hq. discriminate Hq.
   - pose proof (Forall_inv Hw) as Hs. pose proof (Forall_inv_tail Hw) as Hw'. cbv beta in Hs.
     destruct (seg_init ls p post Hs) as [H1 H2].
     destruct (from_mid ls post p Hs Hw') as (sched & He & Hl & Hr).
@@ -180,8 +194,21 @@ Proof.
         assert (E : mrun ls sched (mrun ls pre0 (minit (p :: post))) = mrun ls sched (Mid p post))
           by (f_equal; exact H1).
         match type of Hr with match ?x with _ => _ end => destruct x as [q|] eqn:Ef end.
-        -- destruct Hr as [rest Hr]. rewrite Hr in E.
-           pose proof (final_ok_Fok (p :: post) ls q rest Ef) as HF. rewrite <- E in HF. exact HF.
+        -- destruct Hr as (pre & rest & Hr & E2 & E3). rewrite Hr in E.
+           pose proof (final_ok_Fok (p :: post) ls q rest Ef) as HF. rewrite <- E in HF.
+           split; [exact HF|]. intros q' Hq'. unfold first_common in Hq'.
+           unfold name, bytes in *. rewrite Ef in Hq'. injection Hq' as <-.
+           exists pre. rewrite E. cbn. split; assumption.
         -- rewrite Hr in E.
-           pose proof (final_ok_Ffail (p :: post) ls Ef) as HF. rewrite <- E in HF. exact HF.
+           pose proof (final_ok_Ffail (p :: post) ls Ef) as HF. rewrite <- E in HF.
+           split; [exact HF|]. intros q' Hq'. unfold first_common in Hq'.
+           unfold name, bytes in *. rewrite Ef in Hq'. discriminate Hq'.
+Qed.
+
+Lemma ref_run : forall ds ls, wfd ds ->
+  exists sched, eff ls sched (minit ds) /\ (length sched <= fair_bound ds)%nat /\
+                final_ok ds ls (mrun ls sched (minit ds)).
+Proof.
+  intros ds ls Hw. destruct (ref_run2 ds ls Hw) as (sched & A & B & C & _).
+  exists sched. split; [exact A|]. split; [exact B | exact C].
 Qed.
